@@ -157,7 +157,7 @@ DoUpdate(ms, a) == UpdateF(ms, a.h, a.other)
 (* and the identifier of the (new) bundle are rewritten before the duplicate      *)
 (* check.                                                                         *)
 RECURSIVE AddNsAll(_, _, _)
-AddNsAll(st, reg, i) == IF i > Len(reg) THEN st ELSE AddNsAll(AddNsF(st, reg[i][1], reg[i][2]).st, reg, i + 1)
+AddNsAll(st, reg, i) == IF i > Len(reg) THEN st ELSE AddNsAll(AddNsF(st, <<>>, reg[i][1], reg[i][2]).st, reg, i + 1)
 AddBundleF(ms, h, arg, idn, out) ==
   LET ac == ms.con[arg]
       (* a refused document argument leaves nothing behind: the converted bundle is dropped *)
